@@ -103,6 +103,13 @@ def build_impl(n, ld):
             idx = list(s[1])
             if form == 'tuple': idx = tuple(idx)
             elif form == 'array': idx = np.array(idx, dtype=np.int64)
+            elif form == 'array32': idx = np.array(idx, dtype=np.int32)
+            elif form == 'nested': idx = [idx]
+            elif form.startswith('bool'):
+                m = [False] * int(form.split(':')[1])
+                for i in idx:
+                    m[i] = True
+                idx = np.array(m, dtype=bool) if form.startswith('boolarray') else m
             return d[idx]
         if s[0] == 'keys':
             return d[list(s[1])] if s[2] == 'list' else d[tuple(s[1])]
@@ -242,7 +249,16 @@ def run_query(obj, q):
     if k == 'len':
         return ('QLen', 'nat', obs_call(lambda: len(obj)))
     if k == 'keys':
-        return ('QKeys', 'keys', obs_call(lambda: list(obj.keys())))
+        res = obs_call(lambda: list(obj.keys()))
+        # whatever the caller does with the returned container must not show in later answers
+        try:
+            ks = obj.keys()
+            if isinstance(ks, list):
+                ks.reverse()
+                ks.append('zz')
+        except BaseException:
+            pass
+        return ('QKeys', 'keys', res)
     if k == 'geti':
         i = np.int64(q[1]) if (len(q) > 2 and q[2] == 'np') else q[1]
         return (f'(QGetI {z(q[1])})', 'val', obs_call(lambda: obj[i]))
@@ -532,7 +548,14 @@ class Gen:
                 idx = []
             else:
                 idx = [r.randint(-n, n - 1) for _ in range(r.randint(0, n + 1))]
-            return Node('get', (('ints', tuple(idx), r.choice(['list', 'tuple', 'array'])),), [node])
+            form = r.choice(['list', 'tuple', 'array', 'array32', 'nested', 'boollist', 'boolarray'])
+            if form.startswith('bool'):
+                # a mask of length n denotes the increasing positions it marks (the model sees those)
+                idx = sorted(set(i % n for i in idx)) if n else []
+                form = form + ':%d' % n
+            elif not idx and form in ('list', 'tuple', 'nested'):
+                form = 'array'        # an empty python sequence is a float index for numpy; the empty int array is the well-formed way
+            return Node('get', (('ints', tuple(idx), form),), [node])
         if op == 'badint':
             return Node('get', (('ints', (r.choice([n, n + 1, -n - 1]),), 'list'),), [node])
         if op == 'keys':
